@@ -282,6 +282,9 @@ pub fn run_check(prop: &str, tier: &str) -> i32 {
             }
             seq_check(prop, tier, s, &["C16", "C01", "C11", "C14"], budget * 0.55, &mut report);
             schedprops::run_programs(concprogs::warm_programs(false), if thorough { 3 } else { 2 }, 4000, budget * 0.25, &schedprops::judge_linearizable, None, &["C16", "C07", "C08", "C14"], &mut report);
+            if report.violations.is_empty() {
+                c16::stress_supplement(&mut report, if thorough { 15.0 } else { 2.5 });
+            }
         }
         "C11" => {
             let s = pick(&["mem-ttl", "mem-wide", "ts-mem", "disk-wide-v3", "disk-v1-ttl", "disk-v3-ttl", "focus-v2-ttl", "focus-v3-ttl-nocache", "focus-v3-ttl"], thorough);
